@@ -145,6 +145,12 @@ def gen(exprs, rounds=4, counts=None):
             if _is(s, "ex"):
                 new.append(e == s.arg(0))
                 cnt("ln_ex")
+            elif z3.is_app(s) and s.decl().kind() == z3.Z3_OP_ADD and all(_is(c, "ex") for c in s.children()):
+                # log-sum-exp dominates each of its arguments
+                for c in s.children():
+                    new.append(e >= c.arg(0))
+                new.append(EX(e) == s)
+                cnt("lse_lower_bound")
             else:
                 # ex(ln s) = s links ln-terms to the exponential world
                 new.append(z3.Implies(s > 0, EX(e) == s))
